@@ -66,11 +66,18 @@ struct CaseStats {
   uint64_t sm_ops_in_retry_after_failure = 0;   // phase 2: calls on such an object after reset / swap-out / destroy + construct
   uint64_t sm_failed_by_type[3] {};         // storage of the string when the failed call was made: SSO, heap (kTypeLarge), external
   uint64_t sm_run[8][64] {}, sm_failed[8][64] {};
+  // cases whose first refused request was made inside a constructor / was the first request of that constructor (by fault class)
+  uint64_t ctor_cases[3] {}, ctor_cases_first_request[3] {};
 };
+// Requests made while a constructor of an asmjit object is running (the workloads bracket constructor calls with CtorScope).
+// requests[]: failure-free phase-1 runs of this process (count mode); fired*: armed cases whose refused request was inside it.
+struct CtorStat { char name[56]; uint64_t requests[3]; uint64_t fired[3]; uint64_t fired_first[3]; };
+static constexpr int kCtorTab = 48;
 struct Shared {
   Site sites[kSiteTab];
   size_t site_used;
   CaseStats st;
+  CtorStat ctors[kCtorTab];
   uint64_t cur;            // index (k or pattern number) of the case a worker is running
   uint64_t workers_killed;
   uint64_t done;           // the worker ran its last case (what follows is exit() with the LeakSanitizer check)
@@ -87,6 +94,7 @@ struct FaultCtl {
   bool counting = false;   // requests are counted (phase 1 only)
   bool armed = false;      // failures are injected
   bool record_requests = false;  // count mode: record the site of every request
+  bool record_ctors = false;     // first counting run: count the requests made inside constructors
   int cls = -1;
   int mode = M_COUNT;
   uint64_t k = 0;
@@ -138,9 +146,30 @@ static void record_site(int cls, const uintptr_t* pc, bool failed, uint64_t k) {
 }
 
 // The single decision point of all three fault classes.
+static const char* g_ctor_name = nullptr;   // constructor in progress
+static uint64_t g_ctor_seen[3];               // requests it has made so far, per class
+struct CtorScope {
+  const char* prev; uint64_t prev_seen[3];
+  explicit CtorScope(const char* name) : prev(g_ctor_name) { memcpy(prev_seen, g_ctor_seen, sizeof prev_seen); g_ctor_name = name; memset(g_ctor_seen, 0, sizeof g_ctor_seen); }
+  ~CtorScope() { g_ctor_name = prev; memcpy(g_ctor_seen, prev_seen, sizeof prev_seen); }
+};
+static CtorStat* ctor_stat(const char* name) {
+  for (int i = 0; i < kCtorTab; i++) {
+    CtorStat& c = SH->ctors[i];
+    if (!c.name[0]) { snprintf(c.name, sizeof c.name, "%s", name); return &c; }
+    if (!strncmp(c.name, name, sizeof c.name - 1)) return &c;
+  }
+  return nullptr;
+}
+
 static inline bool fault_point(int cls, void** fp, void* caller) {
   if (!F.in_api || !F.counting) return false;
   uint64_t n = ++F.seen[cls];
+  uint64_t ctor_index = 0;
+  if (g_ctor_name) {
+    ctor_index = g_ctor_seen[cls]++;
+    if (F.record_ctors) { if (CtorStat* c = ctor_stat(g_ctor_name)) c->requests[cls]++; }
+  }
   if (F.record_requests) { uintptr_t pc[kSiteDepth]; walk_frames(fp, pc); record_site(cls, pc, false, n); }
   if (!F.armed || cls != F.cls) return false;
   bool fail = false;
@@ -162,6 +191,10 @@ static inline bool fault_point(int cls, void** fp, void* caller) {
       for (int i = 0; i < kSiteDepth && len < 370; i++) len += snprintf(b + len, sizeof b - size_t(len), " %llu", (ull)(pc[i] ? pc[i] - g_exe_base_early : 0));
       b[len++] = '\n';
       ssize_t w = write(2, b, size_t(len)); (void)w;
+    }
+    if (g_ctor_name) {
+      if (CtorStat* c = ctor_stat(g_ctor_name)) { c->fired[cls]++; if (ctor_index == 0) c->fired_first[cls]++; }
+      if (!F.fired) { ST.ctor_cases[cls]++; if (ctor_index == 0) ST.ctor_cases_first_request[cls]++; }
     }
     F.fired++;
     record_site(cls, pc, true, n);
@@ -1371,6 +1404,7 @@ struct W4 : Workload {
   void make_rt() {
     JitAllocator::CreateParams p;
     p.options = JitAllocatorOptions(OPTS);
+    CtorScope cs("JitRuntime(W4)");
     rt.emplace(&p);
   }
   void construct() override { make_rt(); code.emplace(); as.emplace(); }
@@ -1460,7 +1494,15 @@ struct W4 : Workload {
 
   int recover(int strategy, Rec&) override {
     code->reset(strategy == 2 ? ResetPolicy::kHard : ResetPolicy::kSoft);
-    if (!rt->allocator().is_initialized()) { rt.reset(); make_rt(); }     // construction failed: there is no re-init API
+    if (!rt->allocator().is_initialized()) {
+      // construction failed: there is no re-init API, the caller makes a new one - after resetting the old one like any other
+      // (sticky cases: destroyed as it is)
+      if (F.mode != M_STICKY) {
+        if (strategy != 1) rt->reset(ResetPolicy::kSoft);
+        if (strategy != 0) rt->reset(ResetPolicy::kHard);
+      }
+      rt.reset(); make_rt();
+    }
     else rt->reset(strategy == 0 ? ResetPolicy::kSoft : ResetPolicy::kHard);
     return 0;
   }
@@ -2059,6 +2101,414 @@ struct W8 : Workload {
   void destroy() override { s_t256.reset(); s_t32.reset(); s_other.reset(); s_plain.reset(); a16.reset(); a32.reset(); a64.reset(); arena.reset(); }
 };
 
+// =========================================================================================================
+// W9 - objects whose CONSTRUCTION met the refused request
+// =========================================================================================================
+//
+// Constructors report nothing: JitAllocator / JitRuntime install a "not initialized" state, an emitter constructed
+// with a CodeHolder stays detached, CodeHolder::init() returns an error and leaves an empty holder. Such an object must
+// afterwards behave like any other: every call returns an error or works, reset() with both policies, reuse where the
+// API has a way to initialise again (CodeHolder::init, CodeHolder::attach), destruction.
+//   part A  the same calls for every case (compared with the failure-free run when nothing was reported; the caller
+//           learns about a failed constructor from is_initialized(), which counts as "reported").
+//   part B  per object a menu drawn from the case RNG (seed, fault class, mode, pattern): nothing / reset soft /
+//           reset hard / the same policy twice / reset, calls, reset / calls, reset, calls, reset, reset.
+//   recover an initialised object is reset as documented; one that is not is, by the case RNG, reset (soft, hard,
+//           both) and replaced, or replaced as it is.
+// A call on a not-initialised object that claims success is a defect keyed by that call; a crash is keyed by the
+// function that crashed.
+
+static void api_defect(Result& out, const char* kind, const char* api, const std::string& text) {
+  for (auto& x : out.api_defects) if (!strcmp(x.kind, kind) && !strcmp(x.api, api)) { if (x.what.size() < 400) x.what += text + "; "; return; }
+  out.api_defects.push_back(Result::Defect{kind, api, text + "; "});
+}
+
+static uint64_t case_rng_seed(uint64_t seed) {
+  uint64_t h = fnv1a(&seed, sizeof seed);
+  int cls = F.cls, mode = F.mode;
+  h = fnv1a(&cls, sizeof cls, h); h = fnv1a(&mode, sizeof mode, h);
+  if (mode == M_PATTERN) h = fnv1a(F.pat, sizeof(uint64_t) * size_t(F.npat), h); else if (mode != M_COUNT) h = fnv1a(&F.k, sizeof F.k, h);
+  return h;
+}
+
+struct W9 : Workload {
+  static constexpr int kJA = 6, kRT = 2, kEM = 6;
+  std::optional<JitAllocator> ja[kJA];
+  std::optional<JitRuntime> rt[kRT];
+  std::optional<CodeHolder> code[kEM];
+  std::optional<x86::Assembler> xa; std::optional<x86::Builder> xb; std::optional<x86::Compiler> xc;
+  std::optional<a64::Assembler> aa; std::optional<a64::Builder> ab; std::optional<a64::Compiler> ac;
+  std::vector<JitAllocator::Span> held[kJA];
+  std::vector<void*> rt_held[kRT];
+  std::vector<Error> pending;      // what CodeHolder::init() returned in construct()
+  bool ctor_failed_ja[kJA] {}, ctor_failed_rt[kRT] {}, ctor_failed_em[kEM] {};
+  Rec* R = nullptr; Result* out = nullptr;
+  bool halt = false, phase1 = false;
+
+  static JitAllocator::CreateParams ja_params(int j) {
+    JitAllocator::CreateParams p;
+    switch (j) {
+      case 1: p.options = JitAllocatorOptions::kUseDualMapping; break;
+      case 2: p.options = JitAllocatorOptions::kUseMultiplePools | JitAllocatorOptions::kFillUnusedMemory | JitAllocatorOptions::kImmediateRelease; break;
+      case 3: p.options = JitAllocatorOptions::kUseDualMapping | JitAllocatorOptions::kFillUnusedMemory | JitAllocatorOptions::kCustomFillPattern;
+              p.block_size = 128 * 1024; p.granularity = 128; p.fill_pattern = 0xCCCCCCCCu; break;
+      case 4: p.options = JitAllocatorOptions::kDisableInitialPadding | JitAllocatorOptions::kUseMultiplePools; break;
+      case 5: p.options = JitAllocatorOptions::kUseDualMapping | JitAllocatorOptions::kUseMultiplePools | JitAllocatorOptions::kImmediateRelease | JitAllocatorOptions::kDisableInitialPadding;
+              p.block_size = 64 * 1024; p.granularity = 256; break;
+      default: break;
+    }
+    return p;
+  }
+  static const char* ja_name(int j) {
+    static const char* const n[kJA] = { "JitAllocator(nullptr)", "JitAllocator(dual)", "JitAllocator(pools|fill|immediate)", "JitAllocator(dual|fill|pattern,128K/128)",
+                                        "JitAllocator(nopadding|pools)", "JitAllocator(dual|pools|immediate|nopadding,64K/256)" };
+    return n[j];
+  }
+  static const char* rt_name(int j) { return j ? "JitRuntime(dual|fill)" : "JitRuntime(nullptr)"; }
+  static const char* em_name(int j) {
+    static const char* const n[kEM] = { "x86::Assembler(&code)", "x86::Builder(&code)", "x86::Compiler(&code)", "a64::Assembler(&code)", "a64::Builder(&code)", "a64::Compiler(&code)" };
+    return n[j];
+  }
+  BaseEmitter* em(int j) {
+    switch (j) { case 0: return &*xa; case 1: return &*xb; case 2: return &*xc; case 3: return &*aa; case 4: return &*ab; default: return &*ac; }
+  }
+
+  void make_ja(int j) { JitAllocator::CreateParams p = ja_params(j); CtorScope cs(ja_name(j)); if (j == 0) ja[j].emplace(nullptr); else ja[j].emplace(&p); }
+  void make_rt(int j) {
+    JitAllocator::CreateParams p; p.options = JitAllocatorOptions::kUseDualMapping | JitAllocatorOptions::kFillUnusedMemory;
+    CtorScope cs(rt_name(j));
+    if (j == 0) rt[j].emplace(nullptr); else rt[j].emplace(&p);
+  }
+  void make_em(int j) {
+    CodeHolder* c = &*code[j];
+    CtorScope cs(em_name(j));
+    switch (j) { case 0: xa.emplace(c); break; case 1: xb.emplace(c); break; case 2: xc.emplace(c); break; case 3: aa.emplace(c); break; case 4: ab.emplace(c); break; default: ac.emplace(c); break; }
+  }
+  static Environment env_of(int j) { return Environment(j < 3 ? Arch::kX64 : Arch::kAArch64); }
+
+  void construct() override {
+    pending.clear();
+    for (int j = 0; j < kJA; j++) { make_ja(j); held[j].clear(); ctor_failed_ja[j] = !ja[j]->is_initialized(); }
+    for (int j = 0; j < kRT; j++) { make_rt(j); rt_held[j].clear(); ctor_failed_rt[j] = !rt[j]->allocator().is_initialized(); }
+    for (int j = 0; j < kEM; j++) {
+      { CtorScope cs("CodeHolder()+init"); code[j].emplace(); pending.push_back(code[j]->init(env_of(j))); }
+      make_em(j);
+      ctor_failed_em[j] = !em(j)->is_initialized();
+    }
+  }
+
+  // ---- JitAllocator ------------------------------------------------------------------------------------------------
+  void expect_error(bool uninit, Error e, const char* api, const char* who) {
+    R->rec(e);
+    if (uninit && e == Error::kOk) api_defect(*out, "uninitialized-object-accepted-call", api, std::string(who) + ": returned kOk although the object is not initialized");
+  }
+
+  void ja_calls(int j, bool full) {
+    JitAllocator& A = *ja[j]; const char* who = ja_name(j);
+    bool uninit = !A.is_initialized();
+    if (uninit) R->null_result();       // how a caller learns that the constructor failed
+    (void)A.options(); (void)A.block_size(); (void)A.granularity(); (void)A.fill_pattern();
+    static uint8_t src[512]; for (size_t i = 0; i < sizeof src; i++) src[i] = uint8_t(i * 13 + j);
+    size_t sizes[3] = { size_t(64 + j * 16), 5000, 70000 };
+    char b[200];
+    for (int i = 0; i < (full ? 3 : 1); i++) {
+      JitAllocator::Span sp;
+      Error e = A.alloc(Out(sp), sizes[i]);
+      expect_error(uninit, e, "JitAllocator::alloc", who);
+      if (e != Error::kOk) {
+        if (sp.rx() || sp.rw() || sp.size()) api_defect(*out, "failed-call-produced-a-result", "JitAllocator::alloc", std::string(who) + ": alloc() returned an error and filled the span");
+        if (R->stopped()) { halt = true; return; }
+        continue;
+      }
+      if (!sp.rx() || sp.size() < sizes[i]) { snprintf(b, sizeof b, "%s: alloc(%zu) returned kOk with rx=%p size=%zu", who, sizes[i], sp.rx(), sp.size()); api_defect(*out, "wrong-result-after-ok", "JitAllocator::alloc", b); continue; }
+      held[j].push_back(sp);
+      JitAllocator::Span& S = held[j].back();
+      size_t wn = std::min(sizeof src, S.size() - 8);
+      Error w = A.write(S, 8, src, wn); R->rec(w);
+      if (w == Error::kOk && memcmp(static_cast<uint8_t*>(S.rx()) + 8, src, wn) != 0) api_defect(*out, "wrong-result-after-ok", "JitAllocator::write", std::string(who) + ": the bytes at rx differ from what was written");
+      JitAllocator::Span q;
+      Error qe = A.query(Out(q), S.rx()); R->rec(qe);
+      if (qe == Error::kOk && (q.rx() != S.rx() || q.size() != S.size())) api_defect(*out, "wrong-result-after-ok", "JitAllocator::query", std::string(who) + ": query() describes another span");
+      if (i == 1) {
+        Error se = A.shrink(S, 1000); R->rec(se);
+        if (se == Error::kOk && (S.size() < 1000 || S.size() > 5000)) api_defect(*out, "wrong-result-after-ok", "JitAllocator::shrink", std::string(who) + ": span size after shrink(1000) = " + std::to_string(S.size()));
+        JitAllocator::WriteScope ws(A);
+        Error e1 = ws.write(S, 0, src, 64); R->rec(e1);
+        // (WriteScope::write(span, lambda) does not compile: it forwards an lvalue, scoped_write<Lambda&> forms a pointer to a reference)
+        Error e2 = ws.write(S, [](JitAllocator::Span& x, void* ud) noexcept -> Error { memcpy(x.rw(), static_cast<const uint8_t*>(ud) + 1, 32); return Error::kOk; }, src); R->rec(e2);
+        Error e4 = A.write(S, [&](JitAllocator::Span& x) noexcept -> Error { memcpy(static_cast<uint8_t*>(x.rw()) + 32, src + 33, 16); return Error::kOk; }); R->rec(e4);
+        Error e3 = ws.flush(); R->rec(e3);
+        if (e1 == Error::kOk && e2 == Error::kOk && memcmp(S.rx(), src + 1, 32) != 0) api_defect(*out, "wrong-result-after-ok", "JitAllocator::scoped_write", std::string(who) + ": the bytes at rx differ from what was written");
+      }
+      if (R->stopped()) { halt = true; return; }
+    }
+    // calls that can only be refused: an address / a span the allocator never handed out
+    { JitAllocator::Span none; Error e = A.query(Out(none), reinterpret_cast<void*>(uintptr_t(0x1000))); R->calls++; if (e == Error::kOk) api_defect(*out, "uninitialized-object-accepted-call", "JitAllocator::query", std::string(who) + ": query(0x1000) returned kOk"); }
+    { JitAllocator::Span none; Error e = A.shrink(none, 0); R->calls++; if (e == Error::kOk) api_defect(*out, "uninitialized-object-accepted-call", "JitAllocator::shrink", std::string(who) + ": shrink(empty span) returned kOk"); }
+    { JitAllocator::Span none; Error e = A.write(none, 0, src, 4); R->calls++; if (e == Error::kOk) api_defect(*out, "uninitialized-object-accepted-call", "JitAllocator::write", std::string(who) + ": write(empty span) returned kOk"); }
+    { JitAllocator::Span none; Error e = A.write(none, [](JitAllocator::Span&) noexcept -> Error { return Error::kOk; }); R->calls++; if (e == Error::kOk) api_defect(*out, "uninitialized-object-accepted-call", "JitAllocator::write", std::string(who) + ": write(empty span, fn) returned kOk"); }
+    { Error e = A.release(reinterpret_cast<void*>(uintptr_t(0x1000))); R->calls++; if (e == Error::kOk) api_defect(*out, "uninitialized-object-accepted-call", "JitAllocator::release", std::string(who) + ": release(0x1000) returned kOk"); }
+    { Error e = A.release(nullptr); R->calls++; if (e == Error::kOk) api_defect(*out, "uninitialized-object-accepted-call", "JitAllocator::release", std::string(who) + ": release(nullptr) returned kOk"); }
+    // give back all but the first span
+    while (held[j].size() > 1) {
+      Error e = A.release(held[j].back().rx()); R->rec(e); held[j].pop_back();
+      if (R->stopped()) { halt = true; return; }
+    }
+    ja_stats(j, "after the calls");
+  }
+
+  void ja_stats(int j, const char* when) {
+    JitAllocator::Statistics st = ja[j]->statistics();
+    bool uninit = !ja[j]->is_initialized();
+    char b[240];
+    if (st.allocation_count() != held[j].size() || (uninit && (st.block_count() || st.reserved_size() || st.used_size() || st.overhead_size()))) {
+      snprintf(b, sizeof b, "%s %s: statistics() reports %zu spans / %zu blocks / %zu reserved, the caller holds %zu%s", ja_name(j), when, st.allocation_count(), st.block_count(), st.reserved_size(), held[j].size(), uninit ? " (not initialized)" : "");
+      api_defect(*out, "wrong-result-after-ok", "JitAllocator::statistics", b);
+    }
+    if (st.used_size() > st.reserved_size()) api_defect(*out, "wrong-result-after-ok", "JitAllocator::statistics", std::string(ja_name(j)) + " " + when + ": used_size() > reserved_size()");
+  }
+
+  void ja_reset(int j, ResetPolicy policy) {
+    ja[j]->reset(policy);
+    held[j].clear();
+    ja_stats(j, policy == ResetPolicy::kHard ? "after reset(kHard)" : "after reset(kSoft)");
+    if (policy == ResetPolicy::kHard && ja[j]->statistics().block_count() != 0) api_defect(*out, "wrong-result-after-ok", "JitAllocator::reset", std::string(ja_name(j)) + ": blocks survive reset(kHard)");
+  }
+
+  // ---- JitRuntime ----------------------------------------------------------------------------------------------------
+  void rt_calls(int j, int nfn) {
+    JitRuntime& RT = *rt[j]; const char* who = rt_name(j);
+    bool uninit = !RT.allocator().is_initialized();
+    if (uninit) R->null_result();
+    for (int i = 0; i < nfn; i++) {
+      CodeHolder c; x86::Assembler a;
+      Error e = c.init(RT.environment(), RT.cpu_features()); R->rec(e);
+      if (e == Error::kOk) { e = c.attach(&a); R->rec(e); }
+      if (e == Error::kOk) { e = a.mov(x86::eax, 4000 + j * 10 + i); R->rec(e); }
+      if (e == Error::kOk) { e = a.ret(); R->rec(e); }
+      if (R->stopped()) { halt = true; return; }
+      if (e != Error::kOk) continue;
+      int (*fn)() = nullptr;
+      Error ae = RT.add(&fn, &c);
+      expect_error(uninit, ae, "JitRuntime::add", who);
+      if (ae != Error::kOk) {
+        if (fn) api_defect(*out, "failed-call-produced-a-result", "JitRuntime::add", std::string(who) + ": add() returned an error and set the pointer");
+        if (R->stopped()) { halt = true; return; }
+        continue;
+      }
+      if (!fn) { api_defect(*out, "wrong-result-after-ok", "JitRuntime::add", std::string(who) + ": add() returned kOk and a null pointer"); continue; }
+      int got = fn();
+      if (got != 4000 + j * 10 + i) api_defect(*out, "wrong-result-after-ok", "JitRuntime::add", std::string(who) + ": the added function returned " + std::to_string(got));
+      rt_held[j].push_back(reinterpret_cast<void*>(fn));
+    }
+    { Error e = RT.release(reinterpret_cast<void*>(uintptr_t(0x1000))); R->calls++; if (e == Error::kOk) api_defect(*out, "uninitialized-object-accepted-call", "JitRuntime::release", std::string(who) + ": release(0x1000) returned kOk"); }
+    while (rt_held[j].size() > 1) {
+      Error e = RT.release(rt_held[j].back()); R->rec(e); rt_held[j].pop_back();
+      if (R->stopped()) { halt = true; return; }
+    }
+    rt_stats(j, "after the calls");
+  }
+  void rt_stats(int j, const char* when) {
+    JitAllocator::Statistics st = rt[j]->allocator().statistics();
+    if (st.allocation_count() != rt_held[j].size()) {
+      char b[200]; snprintf(b, sizeof b, "%s %s: the allocator reports %zu spans, the caller holds %zu", rt_name(j), when, st.allocation_count(), rt_held[j].size());
+      api_defect(*out, "wrong-result-after-ok", "JitAllocator::statistics", b);
+    }
+  }
+  void rt_reset(int j, ResetPolicy policy) { rt[j]->reset(policy); rt_held[j].clear(); rt_stats(j, "after reset"); }
+
+  // ---- emitters constructed with a CodeHolder ----------------------------------------------------------------------------
+  // One small function; returns what the emit calls reported.
+  template<typename EM>
+  void em_program(EM& e, bool detached, const char* who) {
+    constexpr bool kX86 = std::is_base_of<x86::Emitter, EM>::value || std::is_same<EM, x86::Assembler>::value || std::is_same<EM, x86::Builder>::value || std::is_same<EM, x86::Compiler>::value;
+    constexpr bool kCompiler = std::is_same<EM, x86::Compiler>::value || std::is_same<EM, a64::Compiler>::value;
+    constexpr bool kBuilder = kCompiler || std::is_same<EM, x86::Builder>::value || std::is_same<EM, a64::Builder>::value;
+    Label l = e.new_label();
+    if (!l.is_valid()) R->null_result();
+    else if (detached) api_defect(*out, "uninitialized-object-accepted-call", "BaseEmitter::new_label", std::string(who) + ": a detached emitter returned a valid label");
+    Label nl = e.new_named_label("w9_named");
+    if (!nl.is_valid()) R->null_result();
+    else if (detached) api_defect(*out, "uninitialized-object-accepted-call", "BaseEmitter::new_named_label", std::string(who) + ": a detached emitter returned a valid label");
+    if constexpr (kCompiler) {
+      FuncNode* fn = e.add_func(FuncSignature::build<int, int>());
+      if (!fn) R->null_result();
+      else if (detached) api_defect(*out, "uninitialized-object-accepted-call", "BaseCompiler::add_func", std::string(who) + ": a detached compiler returned a function node");
+      if (fn) {
+        if constexpr (kX86) { x86::Gp v = e.new_gp32("v"); if (!v.is_valid()) R->null_result(); else { fn->set_arg(0, v); expect_error(detached, e.add(v, 7), "BaseEmitter::emit", who); expect_error(detached, e.ret(v), "BaseEmitter::emit", who); } }
+        else { a64::Gp v = e.new_gp32("v"); if (!v.is_valid()) R->null_result(); else { fn->set_arg(0, v); expect_error(detached, e.add(v, v, 7), "BaseEmitter::emit", who); expect_error(detached, e.ret(v), "BaseEmitter::emit", who); } }
+        expect_error(detached, e.end_func(), "BaseCompiler::end_func", who);
+      }
+    }
+    else {
+      if constexpr (kX86) { expect_error(detached, e.mov(x86::eax, 77), "BaseEmitter::emit", who); if (l.is_valid()) expect_error(detached, e.jmp(l), "BaseEmitter::emit", who); }
+      else { expect_error(detached, e.mov(a64::w0, 77), "BaseEmitter::emit", who); if (l.is_valid()) expect_error(detached, e.b(l), "BaseEmitter::emit", who); }
+      expect_error(detached, e.align(AlignMode::kCode, 16), "BaseEmitter::align", who);
+      if (l.is_valid()) expect_error(detached, e.bind(l), "BaseEmitter::bind", who);
+      if constexpr (kX86) expect_error(detached, e.ret(), "BaseEmitter::emit", who);
+      else expect_error(detached, e.ret(a64::x30), "BaseEmitter::emit", who);
+    }
+    static const uint8_t blob[24] = { 9, 8, 7, 6, 5, 4, 3, 2, 1 };
+    if (nl.is_valid()) expect_error(detached, e.bind(nl), "BaseEmitter::bind", who);
+    expect_error(detached, e.embed(blob, sizeof blob), "BaseEmitter::embed", who);
+    expect_error(detached, e.comment("w9"), "BaseEmitter::comment", who);
+    if constexpr (kBuilder) expect_error(detached, e.finalize(), "BaseBuilder::finalize", who);
+    else R->rec(e.finalize());      // (an assembler has nothing to finalize: kOk also when detached)
+  }
+  void em_run(int j, bool detached) {
+    switch (j) {
+      case 0: em_program(*xa, detached, em_name(j)); break; case 1: em_program(*xb, detached, em_name(j)); break; case 2: em_program(*xc, detached, em_name(j)); break;
+      case 3: em_program(*aa, detached, em_name(j)); break; case 4: em_program(*ab, detached, em_name(j)); break; default: em_program(*ac, detached, em_name(j)); break;
+    }
+  }
+  // Calls on a CodeHolder that may be empty (init() failed). Only the ones that need no section / label to exist.
+  void holder_calls(int j) {
+    CodeHolder& C = *code[j]; bool empty = !C.is_initialized();
+    const char* who = "CodeHolder";
+    if (!empty) return;
+    // (new_section / new_label_id do not look at is_initialized() - on a holder that never saw init() either - and are
+    //  not called here: what they leave behind would be a caller's mistake, not a matter of the refused request)
+    expect_error(true, C.attach(em(j)), "CodeHolder::attach", who);
+    expect_error(true, C.reinit(), "CodeHolder::reinit", who);
+    R->rec(C.detach(em(j)) == Error::kOk ? Error::kInvalidState : Error::kOk);   // detaching what is not attached: refused
+    (void)C.flatten(); (void)C.resolve_cross_section_fixups(); (void)C.code_size();
+    uint8_t buf[64]; (void)C.copy_flattened_data(buf, sizeof buf);
+  }
+  void em_calls(int j) {
+    CodeHolder& C = *code[j]; BaseEmitter* E_ = em(j);
+    bool detached = !E_->is_initialized();
+    if (detached) {
+      R->null_result();                       // how a caller learns that the constructor did not attach
+      em_run(j, true);                        // every call is refused
+      if (R->stopped()) { halt = true; return; }
+      holder_calls(j);
+      if (R->stopped()) { halt = true; return; }
+      // initialise again: the API has a way
+      if (!C.is_initialized()) { if (R->rec(C.init(env_of(j)))) { if (R->stopped()) halt = true; return; } }
+      if (R->rec(C.attach(E_))) { if (R->stopped()) halt = true; return; }
+    }
+    Rec before = *R;
+    em_run(j, false);
+    if (R->stopped()) { halt = true; return; }
+    if (R->errs == before.errs && R->nulls == before.nulls && C.is_initialized() && C.section_count()) {
+      char tag[16]; snprintf(tag, sizeof tag, "em%d", j);
+      out->put(tag, C.text_section()->data(), C.text_section()->buffer_size());
+    }
+  }
+
+  // ---- the menu ------------------------------------------------------------------------------------------------------------
+  void ja_menu(int j, int variant) {
+    switch (variant) {
+      case 0: break;
+      case 1: ja_reset(j, ResetPolicy::kSoft); break;
+      case 2: ja_reset(j, ResetPolicy::kHard); break;
+      case 3: ja_reset(j, (j & 1) ? ResetPolicy::kHard : ResetPolicy::kSoft); ja_reset(j, (j & 1) ? ResetPolicy::kHard : ResetPolicy::kSoft); break;
+      case 4: ja_reset(j, ResetPolicy::kHard); ja_calls(j, false); if (halt) return; ja_reset(j, ResetPolicy::kSoft); break;
+      default: ja_calls(j, false); if (halt) return; ja_reset(j, ResetPolicy::kSoft); ja_calls(j, true); if (halt) return; ja_reset(j, ResetPolicy::kHard); ja_reset(j, ResetPolicy::kHard); ja_reset(j, ResetPolicy::kSoft); ja_calls(j, false); break;
+    }
+  }
+  void rt_menu(int j, int variant) {
+    switch (variant) {
+      case 0: break;
+      case 1: rt_reset(j, ResetPolicy::kSoft); break;
+      case 2: rt_reset(j, ResetPolicy::kHard); break;
+      case 3: rt_reset(j, j ? ResetPolicy::kHard : ResetPolicy::kSoft); rt_reset(j, j ? ResetPolicy::kHard : ResetPolicy::kSoft); break;
+      case 4: rt_reset(j, ResetPolicy::kHard); rt_calls(j, 1); if (halt) return; rt_reset(j, ResetPolicy::kSoft); break;
+      default: rt_calls(j, 1); if (halt) return; rt_reset(j, ResetPolicy::kSoft); rt_calls(j, 2); if (halt) return; rt_reset(j, ResetPolicy::kHard); rt_reset(j, ResetPolicy::kHard); rt_reset(j, ResetPolicy::kSoft); rt_calls(j, 1); break;
+    }
+  }
+  void em_menu(int j, int variant) {
+    CodeHolder& C = *code[j]; BaseEmitter* E_ = em(j);
+    switch (variant) {
+      case 0: break;
+      case 1: C.reset(ResetPolicy::kSoft); break;                    // detaches the emitter
+      case 2: C.reset(ResetPolicy::kHard); break;
+      case 3: C.reset(ResetPolicy::kSoft); C.reset(ResetPolicy::kSoft); em_run(j, true); break;
+      case 4: if (E_->is_initialized()) R->rec(C.detach(E_)); em_run(j, true); C.reset(ResetPolicy::kHard); break;
+      default:
+        C.reset(ResetPolicy::kHard);
+        if (R->rec(C.init(env_of(j)))) break;
+        if (R->rec(C.attach(E_))) break;
+        em_run(j, false);
+        if (R->stopped()) { halt = true; return; }
+        if (C.is_initialized()) R->rec(C.reinit());
+        C.reset(ResetPolicy::kSoft); C.reset(ResetPolicy::kHard);
+        break;
+    }
+    if (R->stopped()) halt = true;
+  }
+
+  void body(Rec& R_, Result& out_) override {
+    R = &R_; out = &out_; halt = false; phase1 = F.counting;
+    for (Error e : pending) if (R->rec(e) && R->stopped()) { pending.clear(); return; }
+    pending.clear();
+    // ---- part A -----------------------------------------------------------------------------------------------------
+    for (int j = 0; j < kJA; j++) { ja_calls(j, true); if (halt) return; out->num(ja_name(j), held[j].size()); }
+    for (int j = 0; j < kRT; j++) { rt_calls(j, 3); if (halt) return; out->num(rt_name(j), rt_held[j].size()); }
+    for (int j = 0; j < kEM; j++) { em_calls(j); if (halt) return; }
+    // ---- part B -----------------------------------------------------------------------------------------------------
+    // (its calls are expected to be refused wherever an object is detached / not initialized: own record, defects only)
+    Rng r(case_rng_seed(P.seed) + (phase1 ? 0 : 99));
+    Result menu_out; Result* keep = out;
+    Rec menu_rec; Rec* keep_rec = R; R = &menu_rec;
+    struct Restore { W9* w; Rec* r; Result* o; ~Restore() { w->R = r; w->out = o; } } restore{this, keep_rec, keep};
+    bool full = F.mode == M_COUNT;
+    for (int j = 0; j < kJA; j++) { ja_menu(j, full ? 5 : int(r.below(6))); if (halt) return; }
+    for (int j = 0; j < kRT; j++) { rt_menu(j, full ? 5 : int(r.below(6))); if (halt) return; }
+    out = &menu_out;             // (the menu's text sections are not output)
+    for (int j = 0; j < kEM; j++) { em_menu(j, full ? 5 : int(r.below(6))); if (halt) break; }
+    out = keep; R = keep_rec;
+    for (auto& d : menu_out.api_defects) api_defect(*out, d.kind, d.api, d.what);
+    halt = false;
+    if (phase1) {   // what the menu's calls reported is "reported" (in the retry the refusals of detached objects are expected)
+      if (!R->errs && menu_rec.errs) { R->first_err = menu_rec.first_err; R->first_err_call = R->calls + menu_rec.first_err_call; }
+      R->calls += menu_rec.calls; R->errs += menu_rec.errs; R->nulls += menu_rec.nulls; R->handler += menu_rec.handler;
+    }
+  }
+
+  int recover(int strategy, Rec& Rr) override {
+    Rng r(case_rng_seed(P.seed) + 7);
+    ResetPolicy pol = strategy == 2 ? ResetPolicy::kHard : ResetPolicy::kSoft;
+    Result scratch; out = &scratch; R = &Rr;
+    for (int j = 0; j < kJA; j++) {
+      if (ja[j]->is_initialized()) { ja[j]->reset(pol); held[j].clear(); continue; }
+      // there is no way to initialise it again: the caller makes a new one
+      switch (F.mode == M_COUNT ? 3 : int(r.below(4))) {
+        case 0: break;
+        case 1: ja[j]->reset(ResetPolicy::kSoft); break;
+        case 2: ja[j]->reset(ResetPolicy::kHard); break;
+        default: ja[j]->reset(ResetPolicy::kSoft); ja[j]->reset(ResetPolicy::kHard); break;
+      }
+      ja[j].reset(); make_ja(j); held[j].clear();
+    }
+    for (int j = 0; j < kRT; j++) {
+      if (rt[j]->allocator().is_initialized()) { rt[j]->reset(pol); rt_held[j].clear(); continue; }
+      switch (F.mode == M_COUNT ? 3 : int(r.below(4))) {
+        case 0: break;
+        case 1: rt[j]->reset(ResetPolicy::kSoft); break;
+        case 2: rt[j]->reset(ResetPolicy::kHard); break;
+        default: rt[j]->reset(ResetPolicy::kHard); rt[j]->reset(ResetPolicy::kSoft); break;
+      }
+      rt[j].reset(); make_rt(j); rt_held[j].clear();
+    }
+    for (int j = 0; j < kEM; j++) {
+      code[j]->reset(pol);
+      Rr.rec(code[j]->init(env_of(j)));
+      Rr.rec(code[j]->attach(em(j)));
+    }
+    return 0;
+  }
+
+  void destroy() override {
+    // emitters before or after their holders, allocators in both directions
+    xa.reset(); ab.reset(); xc.reset();
+    for (int j = 0; j < kEM; j++) code[j].reset();
+    xb.reset(); aa.reset(); ac.reset();
+    for (int j = 0; j < kJA; j++) ja[j].reset();
+    for (int j = kRT - 1; j >= 0; j--) rt[j].reset();
+  }
+};
+
 // @@WORKLOADS@@
 
 // =========================================================================================================
@@ -2187,10 +2637,10 @@ static bool run_case(Workload& W, int style_stop, int strategy) {
   // phase 1
   {
     ApiScope api;
-    F.counting = true; F.armed = (F.mode != M_COUNT); F.record_requests = (F.mode == M_COUNT);
+    F.counting = true; F.armed = (F.mode != M_COUNT); F.record_requests = (F.mode == M_COUNT); F.record_ctors = (F.mode == M_COUNT && strategy == 0);
     W.construct();
     W.body(R1, o1);
-    F.counting = false; F.armed = false; F.record_requests = false;
+    F.counting = false; F.armed = false; F.record_requests = false; F.record_ctors = false;
   }
   bool ok = true;
   if (F.mode == M_COUNT) {
@@ -2273,6 +2723,19 @@ static void emit_json(const Args& args, int cls, int mode, int rc_note) {
     }
     o += "}";
   }
+  snprintf(b, sizeof b, ",\"ctor_cases\":[%llu,%llu,%llu],\"ctor_cases_first_request\":[%llu,%llu,%llu]", (ull)ST.ctor_cases[0], (ull)ST.ctor_cases[1], (ull)ST.ctor_cases[2],
+           (ull)ST.ctor_cases_first_request[0], (ull)ST.ctor_cases_first_request[1], (ull)ST.ctor_cases_first_request[2]); o += b;
+  o += ",\"ctors\":{";
+  {
+    bool f1 = true;
+    for (int i = 0; i < kCtorTab && SH->ctors[i].name[0]; i++) {
+      const CtorStat& c = SH->ctors[i];
+      snprintf(b, sizeof b, "%s\"%s\":{\"requests\":[%llu,%llu,%llu],\"fired\":[%llu,%llu,%llu],\"fired_first\":[%llu,%llu,%llu]}", f1 ? "" : ",", c.name,
+               (ull)c.requests[0], (ull)c.requests[1], (ull)c.requests[2], (ull)c.fired[0], (ull)c.fired[1], (ull)c.fired[2], (ull)c.fired_first[0], (ull)c.fired_first[1], (ull)c.fired_first[2]);
+      o += b; f1 = false;
+    }
+  }
+  o += "}";
   o += ",\"violations\":[";
   o.append(SH->viol_buf, SH->viol_len);
   o += "],\"sites\":[";
@@ -2468,6 +2931,7 @@ static Workload* make_workload(const std::string& n) {
   if (n == "W7bld") return new W7<1>();
   if (n == "W7cc") return new W7<2>();
   if (n == "W8") return new W8();
+  if (n == "W9") return new W9();
   // @@REGISTRY@@
   return nullptr;
 }
